@@ -19,9 +19,8 @@ type arrayDecoder struct {
 }
 
 func newArrayDecoder(dec Decoder, elemType *runtime.Type, alen int, structName, fieldName string) *arrayDecoder {
-	// workaround to avoid checkptr errors. cannot use `*(*unsafe.Pointer)(unsafe_New(elemType))` directly.
-	zeroValuePtr := unsafe_New(elemType)
-	zeroValue := **(**unsafe.Pointer)(unsafe.Pointer(&zeroValuePtr))
+	// a zero element, copied over the elements the JSON array does not supply
+	zeroValue := unsafe_New(elemType)
 	return &arrayDecoder{
 		valueDecoder: dec,
 		elemType:     elemType,
@@ -52,7 +51,7 @@ func (d *arrayDecoder) DecodeStream(s *Stream, depth int64, p unsafe.Pointer) er
 			s.cursor++
 			if s.skipWhiteSpace() == ']' {
 				for idx < d.alen {
-					*(*unsafe.Pointer)(unsafe.Pointer(uintptr(p) + uintptr(idx)*d.size)) = d.zeroValue
+					typedmemmove(d.elemType, unsafe.Pointer(uintptr(p)+uintptr(idx)*d.size), d.zeroValue)
 					idx++
 				}
 				s.cursor++
@@ -72,7 +71,7 @@ func (d *arrayDecoder) DecodeStream(s *Stream, depth int64, p unsafe.Pointer) er
 				switch s.skipWhiteSpace() {
 				case ']':
 					for idx < d.alen {
-						*(*unsafe.Pointer)(unsafe.Pointer(uintptr(p) + uintptr(idx)*d.size)) = d.zeroValue
+						typedmemmove(d.elemType, unsafe.Pointer(uintptr(p)+uintptr(idx)*d.size), d.zeroValue)
 						idx++
 					}
 					s.cursor++
@@ -128,7 +127,7 @@ func (d *arrayDecoder) Decode(ctx *RuntimeContext, cursor, depth int64, p unsafe
 			cursor = skipWhiteSpace(buf, cursor)
 			if buf[cursor] == ']' {
 				for idx < d.alen {
-					*(*unsafe.Pointer)(unsafe.Pointer(uintptr(p) + uintptr(idx)*d.size)) = d.zeroValue
+					typedmemmove(d.elemType, unsafe.Pointer(uintptr(p)+uintptr(idx)*d.size), d.zeroValue)
 					idx++
 				}
 				cursor++
@@ -153,7 +152,7 @@ func (d *arrayDecoder) Decode(ctx *RuntimeContext, cursor, depth int64, p unsafe
 				switch buf[cursor] {
 				case ']':
 					for idx < d.alen {
-						*(*unsafe.Pointer)(unsafe.Pointer(uintptr(p) + uintptr(idx)*d.size)) = d.zeroValue
+						typedmemmove(d.elemType, unsafe.Pointer(uintptr(p)+uintptr(idx)*d.size), d.zeroValue)
 						idx++
 					}
 					cursor++
